@@ -278,7 +278,7 @@ func main() {
 
 func decode(kind, val string) string {
 	switch kind {
-	case "int", "now":
+	case "int", "now", "ext-int":
 		if n, ok := smt.ParseInt(val); ok {
 			return n.String()
 		}
